@@ -8,6 +8,7 @@ ops (state = the current board table, set by `reset`):
         boards  = `-` | name:title8:g[:gid:childCount] , ...  (hex Brdname, hex Title[:8], g = 1 for a group/symbolic board)
         byName / byClass = `-` | decimal BSorted entries (the REAL arrays after ReloadBCache: sort.Sort is trusted,
         the model takes any permutation; the answer says whether each is sorted under the model's `Less`)
+  busy <0|1>                                 Shm.BBusyState := v (1 stands for a loader that died holding the flag)
   bid <qhex>                                 cache.GetBid
   find name <asc|desc> <qhex>                cache.FindBoardIdxByName
   find class <asc|desc> <clshex> <qhex>      cache.FindBoardIdxByClass
@@ -27,6 +28,7 @@ structure St where
   t : Tbl := ⟨0, 13, [], []⟩
   slots : List Entry := []
   cls : ClsState := ⟨[], []⟩
+  busy : Bool := false
 
 def parseDir : String → Option Bool
   | "asc" => some true
@@ -119,9 +121,10 @@ def showPages (ps : List (List Entry)) : String := "ok " ++ "/".intercalate (ps.
 
 def bytesOK (l : List Nat) : Bool := l.all (· < 256)
 
-def stepC11 (st : St) (ws : List String) : St × String :=
+def doReset (st : St) (busyTok : Bool) (mb nl bs bn bc : String) : St × String :=
+  let st := if busyTok then { st with busy := true } else st
   let t := st.t
-  match ws with
+  match (["reset", mb, nl, bs, bn, bc] : List String) with
   | ["reset", mb, nl, bs, bn, bc] =>
     match mb.toNat?, nl.toNat?, parseList parseBoard bs, parseList String.toNat? bn, parseList String.toNat? bc with
     | some mb, some nl, some bl, some bn, some bc =>
@@ -130,10 +133,20 @@ def stepC11 (st : St) (ws : List String) : St × String :=
         let t : Tbl := ⟨mb, nl, mkView bs bn, mkView bs bc⟩
         let s1 := if sortedAdj lessName t.byName then 1 else 0
         let s2 := if sortedAdj lessClass t.byClass then 1 else 0
-        ({ t := t, slots := mkView bs (List.range bs.length), cls := ClsState.fresh (bl.map (·.2)) },
-          s!"n={bs.length} sorted={s1},{s2}")
+        let ld := reloadBCache ⟨st.busy, [], false⟩ bs
+        ({ t := t, slots := mkView bs (List.range bs.length), cls := ClsState.fresh (bl.map (·.2)), busy := ld.busy },
+          s!"n={ld.boards.length} sorted={s1},{s2} busy={if ld.busy then 1 else 0} resorted={if ld.sorted then 1 else 0}")
       else (st, "bad-op")
     | _, _, _, _, _ => (st, "bad-op")
+  | _ => (st, "bad-op")
+
+def stepC11 (st : St) (ws : List String) : St × String :=
+  let t := st.t
+  match ws with
+  | ["reset", mb, nl, bs, bn, bc] => doReset st false mb nl bs bn bc
+  | ["reset", mb, nl, bs, bn, bc, "busy"] => doReset st true mb nl bs bn bc
+  | ["busy", "1"] => ({ st with busy := true }, "ok")     -- a loader died holding BBusyState
+  | ["busy", "0"] => ({ st with busy := false }, "ok")
   | ["bid", q] =>
     match parseHex q with
     | some q => (st, showM toString (getBid t.byName (copyInto t.nameLen q)))
